@@ -27,14 +27,14 @@ import (
 
 // Case is one input of the box-layer properties.
 type Case struct {
-	Seed  string           `json:"seed"`            // name in the seed pool ("" = Data)
-	Box   int              `json:"box"`             // box level: index (depth-first) of the box of the seed to take; -1 = whole seed
-	Muts  []boxmut.Mut     `json:"muts,omitempty"`  // mutation recipe (applied to the extracted box / the file)
-	Data  harness.HexBytes `json:"data,omitempty"`  // explicit bytes (filled in for reports)
-	Level string           `json:"level"`           // "box" | "file"
-	Path  string           `json:"path"`            // "reader" | "sr"
-	Opt   bool             `json:"opt,omitempty"`   // C02/C03: encode with OptimizeTrun
-	Info  bool             `json:"info,omitempty"`  // C02: call Info between encodes
+	Seed  string           `json:"seed"`           // name in the seed pool ("" = Data)
+	Box   int              `json:"box"`            // box level: index (depth-first) of the box of the seed to take; -1 = whole seed
+	Muts  []boxmut.Mut     `json:"muts,omitempty"` // mutation recipe (applied to the extracted box / the file)
+	Data  harness.HexBytes `json:"data,omitempty"` // explicit bytes (filled in for reports)
+	Level string           `json:"level"`          // "box" | "file"
+	Path  string           `json:"path"`           // "reader" | "sr"
+	Opt   bool             `json:"opt,omitempty"`  // C02/C03: encode with OptimizeTrun
+	Info  bool             `json:"info,omitempty"` // C02: call Info between encodes
 }
 
 // Bytes materialises the input.
@@ -222,9 +222,10 @@ func (d Decoded) Size() uint64 {
 
 type dcEntry struct {
 	Type     string   `json:"type"`
-	Versions []int    `json:"versions"` // nil = any / not a full box
-	Ranges   [][2]int `json:"ranges"`   // [offset, length] relative to the payload start
-	Bits     [][2]int `json:"bits"`     // [payload offset, bit mask] single bytes where only some bits are don't-care
+	Versions []int    `json:"versions"`        // nil = any / not a full box
+	Except   []int    `json:"except_versions"` // applies to every version but these
+	Ranges   [][2]int `json:"ranges"`          // [offset, length] relative to the payload start
+	Bits     [][2]int `json:"bits"`            // [payload offset, bit mask] single bytes where only some bits are don't-care
 	Why      string   `json:"why"`
 }
 
@@ -261,7 +262,7 @@ func loadSpec() {
 func maskFor(typ string, payload []byte) []byte {
 	loadSpec()
 	es := dcByT[typ]
-	if len(es) == 0 {
+	if len(es) == 0 && !visualEntries[typ] && typ != "colr" && typ != "sgpd" {
 		return nil
 	}
 	m := make([]byte, len(payload))
@@ -274,6 +275,11 @@ func maskFor(typ string, payload []byte) []byte {
 		for _, v := range e.Versions {
 			if v == ver {
 				ok = true
+			}
+		}
+		for _, v := range e.Except {
+			if v == ver {
+				ok = false
 			}
 		}
 		if !ok {
@@ -290,7 +296,64 @@ func maskFor(typ string, payload []byte) []byte {
 			}
 		}
 	}
+	computedMask(typ, payload, m)
 	return m
+}
+
+var visualEntries = map[string]bool{"avc1": true, "avc3": true, "hvc1": true, "hev1": true, "encv": true, "av01": true, "vp08": true, "vp09": true}
+
+// computedMask adds the position-dependent don't-care bits listed under "computed" in the spec.
+func computedMask(typ string, p, m []byte) {
+	switch {
+	case typ == "avcC":
+		if len(p) < 7 {
+			return
+		}
+		pos := 6
+		for i := 0; i < int(p[5]&31); i++ {
+			if pos+2 > len(p) {
+				return
+			}
+			pos += 2 + int(p[pos])<<8 + int(p[pos+1])
+		}
+		if pos >= len(p) {
+			return
+		}
+		n := int(p[pos])
+		pos++
+		for i := 0; i < n; i++ {
+			if pos+2 > len(p) {
+				return
+			}
+			pos += 2 + int(p[pos])<<8 + int(p[pos+1])
+		}
+		for i, bits := range []byte{0xfc, 0xf8, 0xf8} {
+			if pos+i < len(m) {
+				m[pos+i] |= bits
+			}
+		}
+	case typ == "sgpd":
+		// seig entries (CencSampleEncryptionInformationGroupEntry): first byte reserved(8)=0
+		if len(p) >= 16 && p[0] >= 1 && string(p[4:8]) == "seig" {
+			dl := int(p[8])<<24 | int(p[9])<<16 | int(p[10])<<8 | int(p[11])
+			n := int(p[12])<<24 | int(p[13])<<16 | int(p[14])<<8 | int(p[15])
+			if dl >= 20 {
+				for i := 0; i < n && 16+i*dl < len(m); i++ {
+					m[16+i*dl] = 0xff
+				}
+			}
+		}
+	case typ == "colr":
+		if len(p) >= 11 && string(p[0:4]) == "nclx" {
+			m[10] |= 0x7f // full_range_flag(1) + reserved(7)
+		}
+	case visualEntries[typ]:
+		if len(p) >= 74 && p[42] <= 31 {
+			for i := 43 + int(p[42]); i < 74; i++ {
+				m[i] = 0xff
+			}
+		}
+	}
 }
 
 // ---------------------------------------------------------------------------------------------
@@ -309,6 +372,7 @@ type CmpStats struct {
 	LargeToSmall int // 64-bit size headers rewritten as 32-bit
 	MoovReorder  int
 	MaskedBytes  int
+	Malformed    int // inputs whose size fields the independent walker rejects (no byte-level claim)
 }
 
 func boxPayload(data []byte, b *boxwalk.Box) []byte { return data[b.PayloadStart():b.End()] }
@@ -342,7 +406,14 @@ func moovOrder(kids []*boxwalk.Box) ([]*boxwalk.Box, bool) {
 // strictly; for mutated inputs a leaf box whose output is a (masked) prefix of the input is counted as
 // "surplus bytes dropped" (spec entry "surplus").
 func CompareRoundTrip(in, out []byte, pristine bool, st *CmpStats) *Diff {
-	ti, _ := boxwalk.WalkAll(in)
+	ti, errI := boxwalk.WalkAll(in)
+	if errI != nil {
+		// The independent walker finds inconsistent size fields in the input (a child that claims more bytes
+		// than its parent holds; the io.Reader decoders accept such containers at the end of the input).
+		// No byte-level claim for such inputs; checks (2) and (3) still apply.
+		st.Malformed++
+		return nil
+	}
 	to, errO := boxwalk.WalkAll(out)
 	if errO != nil {
 		return &Diff{"C01|output|not a well-formed box sequence", errO.Error()}
@@ -374,7 +445,13 @@ func leaf(path string) string {
 	if path == "" {
 		return "file"
 	}
-	return path[strings.LastIndex(path, "/")+1:]
+	out := []byte(path[strings.LastIndex(path, "/")+1:])
+	for i, b := range out {
+		if b < 0x20 || b > 0x7e {
+			out[i] = '?'
+		}
+	}
+	return string(out)
 }
 
 func types(bs []*boxwalk.Box) string {
@@ -433,6 +510,22 @@ func cmpBox(in, out []byte, a, b *boxwalk.Box, path string, pristine bool, st *C
 	return &Diff{"C01|" + a.Type + "|re-encoded box length differs", fmt.Sprintf("%s: input payload %d bytes, output %d bytes\n in  %s\n out %s", path, len(pa), len(pb), harness.HexTrunc(pa, 120), harness.HexTrunc(pb, 120))}
 }
 
+var audioEntries = map[string]bool{"mp4a": true, "enca": true, "ac-3": true, "ec-3": true}
+
+// unrepresentedField names ISO template fields that the library neither stores nor reproduces (they are NOT
+// don't-care: a difference there is reported under a key of its own).
+func unrepresentedField(typ string, off int) string {
+	switch {
+	case visualEntries[typ] && (off == 74 || off == 75):
+		return "VisualSampleEntry.depth|not represented (always written as 0x0018)"
+	case audioEntries[typ] && (off == 26 || off == 27):
+		return "AudioSampleEntry.samplerate|fractional 16 bits not represented (written as 0)"
+	case typ == "data" && off < 8:
+		return "DataBox(ilst).type_indicator+locale|not represented (always written as 1 and 0)"
+	}
+	return ""
+}
+
 func cmpBytes(typ string, pa, pb []byte, path string, st *CmpStats) *Diff {
 	if bytes.Equal(pa, pb) {
 		return nil
@@ -455,7 +548,11 @@ func cmpBytes(typ string, pa, pb []byte, path string, st *CmpStats) *Diff {
 			if lo < 0 {
 				lo = 0
 			}
-			return &Diff{"C01|" + typ + "|re-encoded bytes differ", fmt.Sprintf("%s (first payload byte/version %d, payload length %d): payload offset %d: input %02x output %02x\n in  ...%s\n out ...%s",
+			key := "C01|" + typ + "|re-encoded bytes differ"
+			if f := unrepresentedField(typ, i); f != "" {
+				key = "C01|" + f
+			}
+			return &Diff{key, fmt.Sprintf("%s (first payload byte/version %d, payload length %d): payload offset %d: input %02x output %02x\n in  ...%s\n out ...%s",
 				path, ver, len(pa), i, pa[i], pb[i], harness.HexTrunc(pa[lo:], 48), harness.HexTrunc(pb[lo:], 48))}
 		}
 	}
@@ -469,7 +566,9 @@ type EqOpt struct {
 	IgnorePositions bool // ignore fields named StartPos / AnchorPoint (used when lengths changed)
 }
 
-var posFields = map[string]bool{"StartPos": true, "AnchorPoint": true, "readBoxSize": true}
+// fields that record where the bytes came from (positions, remembered sizes, raw payload caches); they
+// legitimately differ as soon as the output is not byte-identical to the input
+var posFields = map[string]bool{"StartPos": true, "AnchorPoint": true, "readBoxSize": true, "rawData": true}
 
 // DeepDiff returns "" when a and b are structurally equal, else a description of the first difference.
 func DeepDiff(a, b interface{}, opt EqOpt) string {
